@@ -17,7 +17,10 @@ This module contains functions for loading and saving Strawberry Fields
 code.
 """
 # pylint: disable=protected-access,too-many-nested-blocks
+import re
+
 import numpy as np
+import sympy
 
 import blackbird
 
@@ -64,6 +67,15 @@ def from_blackbird(bb: blackbird.BlackbirdProgram) -> Program:
                 # the gate has arguments
                 args = op["args"]
                 kwargs = op["kwargs"]
+
+                # free parameters (and expressions of them) are written as strings
+                # such as "{a}" or "2*{a} + 0.1": turn them back into symbolic expressions
+                args = [
+                    sympy.sympify(re.sub(r"\{(\w+)\}", r"\1", a))
+                    if isinstance(a, str) and re.search(r"\{\w+\}", a)
+                    else a
+                    for a in args
+                ]
 
                 # Convert symbolic expressions in args/kwargs containing measured and free parameters to
                 # symbolic expressions containing the corresponding MeasuredParameter and FreeParameter instances.
